@@ -38,7 +38,7 @@ type Config struct {
 
 // DefaultConfig returns the configuration used by the harness.
 func DefaultConfig() Config {
-	return Config{MaxFuncs: 8, MaxStmtDepth: 3, MaxExprDepth: 3, MaxStmts: 14, GoVersion: "go1.26"}
+	return Config{MaxFuncs: 8, MaxStmtDepth: 3, MaxExprDepth: 3, MaxStmts: 16, GoVersion: "go1.26"}
 }
 
 // Generate draws a program from t.
@@ -58,6 +58,7 @@ func Generate(t *rapid.T, cfg Config) *Program {
 	if cfg.MaxStmts < 3 {
 		cfg.MaxStmts = 3
 	}
+	cfg.Disable = withGoVersion(cfg.Disable, cfg.GoVersion)
 	g := &gen{t: t, cfg: cfg, buf: &strings.Builder{}, features: map[string]bool{}}
 	g.raw(prelude)
 	g.scopes = [][]*vr{globalScope()}
@@ -86,6 +87,39 @@ func Generate(t *rapid.T, cfg Config) *Program {
 		})
 	}
 	return p
+}
+
+// withGoVersion switches off the templates that need a newer language version
+// than cfg.GoVersion ("" means current). Only the coarse steps that matter for
+// whole templates are modelled: range-over-func needs go1.23; range-over-int
+// and per-iteration loop variables need go1.22.
+func withGoVersion(disable map[string]bool, v string) map[string]bool {
+	minor := 1 << 30
+	if strings.HasPrefix(v, "go1.") {
+		minor = 0
+		for _, c := range v[4:] {
+			if c < '0' || c > '9' {
+				break
+			}
+			minor = minor*10 + int(c-'0')
+		}
+	}
+	out := map[string]bool{}
+	for k, b := range disable {
+		out[k] = b
+	}
+	if minor < 23 {
+		for _, k := range []string{"range-func", "range-func-exit", "range-func-2", "range-func-labeled",
+			"range-func-defer", "range-func-goto", "range-func-local"} {
+			out[k] = true
+		}
+	}
+	if minor < 22 {
+		for _, k := range []string{"closure-loop-var", "defer-loop", "addr-taken-partial", "map-ops", "typed-wrap", "rotate-assign", "labeled-loops", "range-int"} {
+			out[k] = true
+		}
+	}
+	return out
 }
 
 var vecInts = []int{-1, 0, 1, 2, 3, 5, 7, 100, -128, 127, 1 << 31, -1 << 63, 4, 6, 9}
@@ -215,7 +249,7 @@ func (g *gen) genTarget(i int) {
 	var decl []string
 	var vars []*vr
 	for j, pt := range t.params {
-		name := fmt.Sprintf("p%d", j)
+		name := fmt.Sprintf("in%d", j)
 		decl = append(decl, name+" "+pt.Name)
 		v := &vr{name: name, ty: pt, local: pt.Kind == kInt || pt.Kind == kBool || pt.Kind == kString || pt.Kind == kStruct}
 		if pt.Kind == kFunc {
@@ -228,7 +262,7 @@ func (g *gen) genTarget(i int) {
 		var rs []string
 		for j, rt := range t.res {
 			if t.named {
-				name := fmt.Sprintf("r%d", j)
+				name := fmt.Sprintf("out%d", j)
 				fc.resNames = append(fc.resNames, name)
 				rs = append(rs, name+" "+rt.Name)
 				vars = append(vars, &vr{name: name, ty: rt, local: true})
@@ -257,10 +291,13 @@ func (g *gen) genTarget(i int) {
 		}
 		g.close_("}")
 		g.line("fuel--")
+		if g.on("defer-recover") && g.chance(20, "toprecover") {
+			g.deferRecover(false)
+		}
 		if g.on("goto-graph") && g.chance(9, "gotomode") {
 			g.gotoGraph()
 		} else {
-			n := g.rng(3, max(3, g.cfg.MaxStmts/2), "nstmts")
+			n := g.rng(4, max(4, g.cfg.MaxStmts*2/3), "nstmts")
 			for k := 0; k < n; k++ {
 				g.stmt(g.cfg.MaxStmtDepth)
 			}
